@@ -8,9 +8,13 @@ R11.2 rules are local           : in every inference rule, the type variable / v
 R11.3 sharing is by structure   : the variants that are stably typed on their own are exactly Value, CallData and StorageSlot; the
       stable-type cache is keyed by the value; equality and hashing of values ignore exactly the instruction pointer and the
       provenance; every registration that is not served from that cache draws a fresh type variable.
+R11.5 slot-number independence  : every function of the lifting passes / inference rules that reads the numeric value of a
+      constant (conversion, byte view, comparison) is enumerated and compared with a reviewed table saying what that constant is
+      (a shift, a mask, an offset, a size - never a slot number used as such).
 R11.4 slot identity is the key  : the layout row's index is the constant under the StorageSlot and nothing else (= R05.1).
 """
 from .. import facts as F
+from .. import tables
 from .. import srcattrs
 from .. import terms as T
 
@@ -305,6 +309,45 @@ def check(fx, rep, tier):
                         ok = True
                 rep.oblige(ok, "R11.4", f"row-index:{F.strip_generics(b['def'])}", F.loc(n["span"]), "the layout row index is not the constant under the StorageSlot: slot identity would depend on something positional", sample={"rule": "R11.4", "index": "KnownData under StorageSlot"})
     rep.floor("R11.4", adds, 2, "calls of StorageLayout::add")
+    # ---------------------------------------------------------------- R11.5 slot-number independence
+    KW = "vm::value::known::KnownWord"
+    rows5 = {r[0]: r for r in tables.read("const_inspections.tsv")}
+    found5 = {}
+    for b in fx.fn_bodies():
+        if not b.get("hir") or not ("tc::lift" in b["def"] or "tc::rule" in b["def"]):
+            continue
+        readers = set()
+        for c, ps in F.calls(b["hir"]["value"]):
+            name = F.strip_generics(F.callee(c) or F.callee_def(c) or "")
+            argtys = [(a.get("ty") or "") for a in F.call_args(c)]
+            if not any(KW in t or "ethnum::U256" in t or "ethnum::I256" in t for t in argtys):
+                continue
+            last = name.split("::")[-1]
+            reader = name.startswith(KW + "::") or name.startswith("ethnum::") or name.startswith("vm::value::known::from") or ("KnownWord as std::convert::Into<" in name) or ("as std::convert::From<" in name and "KnownWord" in name) or ("TryFrom<" in name)
+            if not reader or last in ("clone", "from_le", "from_be_bytes", "zero", "new", "fmt", "hash", "eq", "ne"):
+                continue
+            rt = c.get("ty") or ""
+            readers.add(last + ("->" + rt if rt in ("usize", "u32", "u64", "u8", "bool") else ""))
+        for n, ps in F.walk(b["hir"]["value"]):
+            if n.get("k") == "Binary" and n["op"] in ("Eq", "Ne", "Lt", "Le", "Gt", "Ge") and any(KW in (n[x].get("ty") or "") or "ethnum::U256" in (n[x].get("ty") or "") for x in ("l", "r")):
+                readers.add("compare")
+        if readers:
+            found5[b["def"]] = ",".join(sorted(readers))
+    rep.floor("R11.5", len(found5), 8, "lifting-pass / inference-rule functions that read the numeric value of a constant")
+    for name, readers in sorted(found5.items()):
+        row = rows5.get(name)
+        rep.fn(name)
+        ok = row is not None and row[1] == readers
+        rep.oblige(
+            ok,
+            "R11.5",
+            f"constant-inspection:{name}",
+            F.loc(fx.body(name)["span"]),
+            (f"`{name}` reads the numeric value of a constant ({readers}) and has no reviewed row in tables/const_inspections.tsv" if row is None else f"`{name}` now inspects constants through {{{readers}}} (reviewed: {{{row[1]}}})")
+            + ": a lifting pass or rule that tests the magnitude of a constant can make a slot's type depend on its number; review what the constant is",
+            sample={"rule": "R11.5", "fn": name, "readers": readers, "reviewed_as": row[2][:80] if row else None},
+        )
+
     # evidence of an earlier run must not take part in the next one (shared with C05 R05.7)
     from .c05 import check_fresh_run
 
